@@ -1,5 +1,6 @@
 CONSTANTS
   N = 4
+  EdgePoolCodes = {}
 SPECIFICATION Spec
 INVARIANTS Acyclic Sound Complete
 PROPERTY Terminates
